@@ -426,3 +426,18 @@ def check_C07(ctx):
 
 def replay_C07(ctx):
     return check_C07(ctx)
+
+
+def check_C10(ctx):
+    def classify(name, fields, run):
+        return ("C10:%s:%s" % (run["family"].split(":")[0], fields[1][:50]), "%s (faults %s): %s; statuses written %s, result %s" % (run["family"], run["faults"], fields[1], run["statuses"], run["result"]))
+    return pub_property(ctx, "C10", "Properties/C10.v",
+                        ["Pub/BaseActor.v and below, Pub/Monitors.v write_step / outcome_ok",
+                         "modelled, not verified: faults of the ResponseWriter itself are outside the quantifier; header writes are observed when the status is written"],
+                        {"monitors": ["outcome_bad"], "classify": classify,
+                         "rule": "C07 request product plus every standard scenario with every single fault; judged by the strict outcome monitor (201 => Location = first generated id)"},
+                        run_specs=[("gate", GATE[ctx.tier]), ("std", PUB_STD[ctx.tier])])
+
+
+def replay_C10(ctx):
+    return check_C10(ctx)
